@@ -186,6 +186,13 @@ def rule_reset(check):
             init = b["origin"][1] if b and b["origin"][0] == "let" else None
             if init is not None and any(hir.is_call(x) and hir.callee_name(x) == "with_child_ctx" for x in hir.walk(init)):
                 guard_ok = True
+            elif init is not None:
+                # with_ctx(c) where c can only be a child context
+                for x in hir.walk(init):
+                    if hir.is_call(x) and hir.callee_name(x) == "with_ctx" and len(hir.call_args(x)) > 1:
+                        os_ = Prov(prog).origins(v, hir.call_args(x)[1])
+                        if os_ and all(r[0] == "ctor" and r[2].endswith("Ctx::child") for r, p in os_):
+                            guard_ok = True
         check.expect(guard_ok, R, "%s/raii/%s" % (R, g.name), hir.loc(n), "%s runs under a with_child_ctx() guard" % g.name, "%s can create temporaries but is not called through a with_child_ctx() guard: the counter is reset while temporaries of the enclosing expression are live" % g.name)
     check.floor(R, "temp-creating transform calls in visit_mut_expr", n_sites, 5)
     wc = prog.fn("VisitorWithContext::with_child_ctx")
